@@ -125,14 +125,80 @@ pub fn decode_dyn(data: &Data<'_, '_>, s: &RSig) -> Result<(RVal, usize), String
     }
 }
 
+/// structures (alone, and as the second element of an array behind an element of odd length) whose
+/// encoded size lies in the last 8 bytes below a framing-offset threshold (255, now and then 65535),
+/// at every starting offset: where the size of the framing offsets is decided, a few bytes of
+/// padding in front must not count
+pub fn c02_threshold(fmt: Format) -> impl Fn(&mut Src, &mut Obs) -> CaseResult + Sync {
+    move |src, obs| {
+        let first = match src.below(4) {
+            0 => RVal::Q(7),
+            1 => RVal::U(7),
+            2 => RVal::T(7),
+            _ => RVal::D(1.5f64.to_bits()),
+        };
+        let big_threshold = src.chance(12);
+        let limit = if big_threshold { 65535usize } else { 255 };
+        let target = limit - src.below(9);
+        let extra = src.below(3);
+        let tail: RVal = match src.below(3) {
+            0 => RVal::S("t".repeat(src.below(4))),
+            1 => RVal::A(RSig::Y, (0..src.below(4)).map(|i| RVal::Y(i as u8)).collect()),
+            _ => RVal::S(String::new()),
+        };
+        let in_array = src.bool();
+        let big = src.bool();
+        let off = src.below(16);
+        let route = if src.below(3) == 0 { Route::Variant } else { Route::Inner };
+        // find the length of the first string that makes the structure exactly `target` bytes long
+        let mk = |l: usize| {
+            let mut f = vec![first.clone(), RVal::S("a".repeat(l))];
+            for k in 0..extra {
+                f.push(RVal::S("b".repeat(k)));
+            }
+            f.push(tail.clone());
+            RVal::St(f)
+        };
+        let mut l = target.saturating_sub(24);
+        let mut st = mk(l);
+        for _ in 0..40 {
+            let zv = to_value(&st).map_err(|e| Failure::new(e.0))?;
+            let n = encode(fmt, false, 0, &zv, Route::Inner)?.bytes.len();
+            if n == target {
+                break;
+            }
+            l = if n < target { l + (target - n) } else { l.saturating_sub(n - target) };
+            st = mk(l);
+        }
+        let (s, v) = if in_array {
+            // an element of odd length in front of it
+            let odd = mk(1 + 2 * src.below(3));
+            let v = RVal::A(st.sig(), vec![odd, st]);
+            (v.sig(), v)
+        } else {
+            (st.sig(), st)
+        };
+        obs.label(if big_threshold { "threshold-65535" } else { "threshold-255" });
+        obs.label(if in_array { "threshold:second-array-element" } else { "threshold:top-level" });
+        c02_roundtrip(fmt, s, v, big, off, route, obs)
+    }
+}
+
 pub fn c02_dyn(fmt: Format) -> impl Fn(&mut Src, &mut Obs) -> CaseResult + Sync {
     move |src, obs| {
         let gv = fmt != Format::DBus;
         let sopts = SigOpts { maybe: gv, ..so() };
-        let (mut s, mut v) = gen_typed(src, &sopts, &ValOpts::default());
+        let (s, v) = gen_typed(src, &sopts, &ValOpts::default());
         let big = src.bool();
         let off = src.below(16);
-        let mut route = if src.below(3) == 0 { Route::Variant } else { Route::Inner };
+        let route = if src.below(3) == 0 { Route::Variant } else { Route::Inner };
+        c02_roundtrip(fmt, s, v, big, off, route, obs)
+    }
+}
+
+fn c02_roundtrip(fmt: Format, mut s: RSig, mut v: RVal, big: bool, off: usize, mut route: Route, obs: &mut Obs) -> CaseResult {
+    {
+        let gv = fmt != Format::DBus;
         if matches!(s, RSig::Dict(..) | RSig::M(_)) && route == Route::Inner {
             // wrap: these have no top-level dynamic decode seed
             v = RVal::St(vec![v]);
